@@ -250,6 +250,16 @@ def orders_chunk(job):
                                     f"universe {name}, ingestion order {[keys[j][:4] for j in order[:pos + 1]]}: {diff}",
                                     {"universe": name, "order": list(order[:pos + 1])}))
                 break
+        else:
+            # the same records through ingest_many fed by a ONE-SHOT iterator (a lazily decoded / interleaved
+            # JSONL stream) must leave the aggregator in the same state as record-by-record ingestion
+            if out["n"] % 7 == 1:
+                agg2 = TraceAggregator()
+                agg2.ingest_many(records[i] for i in order)
+                if ab.verdicts(agg2) != ab.verdicts(agg):
+                    out["viol"].append((f"ingest-many:lazy-stream:{name}",
+                                        f"universe {name}: ingest_many(<generator over {len(order)} records>) gives {ab.verdicts(agg2)} "
+                                        f"but ingesting the same records one by one gives {ab.verdicts(agg)}", {"universe": name, "order": list(order)}))
     return out
 
 
